@@ -462,7 +462,23 @@ class MailExecutor(UnitsExecutor):
         args = [self.unwrap(st, a) for a in args]
         kwargs = {k: self.unwrap(st, v) for k, v in kwargs.items()}
         try:
-            return super().apply_contract(st, c, args, kwargs, node)
+            try:
+                return super().apply_contract(st.fork() if any(isinstance(a, VOpt) for a in list(args) + list(kwargs.values())) else st, c, args, kwargs, node)
+            except (AttributeError, TypeError, KeyError, IndexError, z3.Z3Exception):
+                # an Optional value (present or not, undecided on this path) handed to a contract written over None | value:
+                # the two cases are taken separately
+                k = next((i for i, a in enumerate(args) if isinstance(a, VOpt)), None)
+                kw = next((n_ for n_, a in kwargs.items() if isinstance(a, VOpt)), None) if k is None else None
+                if k is None and kw is None:
+                    raise
+                a = args[k] if k is not None else kwargs[kw]
+                out = []
+                for cond, val in ((a.none, NONE), (z3.Not(a.none), a.val)):
+                    s2 = st.fork().assume(cond)
+                    args2 = [val if i == k else x for i, x in enumerate(args)]
+                    kwargs2 = {n_: (val if n_ == kw else x) for n_, x in kwargs.items()}
+                    out.extend(self.apply_contract(s2, c, args2, kwargs2, node))
+                return out
         except (AttributeError, TypeError, KeyError, IndexError, z3.Z3Exception) as e:
             # a clause of the callee's contract is not applicable to the values the (changed) code passes: unrecognised shape
             raise Unsupported(f"{self.loc(node)} contract of {c.target.split('::')[-1]} not applicable here: {type(e).__name__}: {e}"[:300])
